@@ -131,6 +131,37 @@ def gen(read):
     rt = pos(bp, "route_to_many(", "broadcast_payload: routing")
     flags += [("broadcast: membership check and the copy of the target list sit under the channel's read lock, routing follows", rl2 < mc < tg < rt)]
 
+    pb = pos(bp, ".is_publish_allowed(", "broadcast_payload: publish permission")
+    flags += [("broadcast: the publish permission is checked under the channel's read lock, before the target list is copied", rl2 < pb < tg)]
+
+    # ---- allow-lists ----
+    sa = fn_body(ch, "set_channel_acl")
+    wl_ = pos(sa, ".write().await", "set_channel_acl: channel write lock")
+    own = pos(sa, ".is_owner(", "set_channel_acl: owner check")
+    upd = pos(sa, ".update(", "set_channel_acl: update of the copy")
+    tot = pos(sa, ".total_entries()", "set_channel_acl: size check")
+    app = pos(sa, ".set_acl(", "set_channel_acl: application")
+    ackp = pos(sa, "SetChannelAclAck", "set_channel_acl: acknowledgement")
+    flags += [("allow-list update: owner check, update of a copy, size check, application and acknowledgement follow each other under the channel's write lock", wl_ < own < upd < tot < app < ackp)]
+    impl_inner = ch[pos(ch, "impl ChannelInner", "impl ChannelInner"):]
+    def rebuilds(name):
+        body = fn_body(impl_inner, name)
+        call = body.find("self.update_allowed_targets()")
+        if call < 0:
+            return False
+        # the call must be a statement of the function's own block (brace depth 1), not inside a branch
+        depth = 0
+        for c in body[:call]:
+            depth += (c == "{") - (c == "}")
+        return depth == 1
+    uat = fn_body(impl_inner, "update_allowed_targets")
+    from_all = re.search(r"self\s*\.members\s*\.iter\(\)\s*\.filter\(", uat) is not None and "is_read_allowed" in uat
+    flags += [("delivery cache: insert_member, remove_member and set_acl each rebuild the list unconditionally, from ALL members filtered by the read list",
+               rebuilds("insert_member") and rebuilds("remove_member") and rebuilds("set_acl") and from_all and "self.allowed_targets" in uat)]
+    ga = fn_body(ch, "get_channel_acl")
+    flags += [("allow-list report: owner check and copy of the list under the channel's read lock",
+               pos(ga, ".read().await", "get_channel_acl: manager lock") < pos(ga, ".is_owner(", "get_channel_acl: owner check") < pos(ga, "drop(channel_inner)", "get_channel_acl: release"))]
+
     # ---- c2s router ----
     ro = blank_comments(read("crates/server/src/c2s/router.rs"))
     u = fn_body(ro, "unregister_connection")
